@@ -149,7 +149,7 @@ pub fn vx_fold<I: Iterator, B, F: Fn(B, I::Item) -> B>(it: I, init: B, f: F) -> 
     acc
 }
 
-//@begin fn src/action/lookup.rs - pick_initial_nodes props=C03
+//@begin fn src/action/lookup.rs - pick_initial_nodes props=C03,C02
 #[verifier::exec_allows_no_decreases_clause]
 pub fn pick_initial_nodes<'a, I>(sorted_nodes: I) -> [(NodeHandle, bool); INITIAL_PICK_NUM]
 where
@@ -180,7 +180,7 @@ where
 }
 //@end
 
-//@begin fn src/action/lookup.rs - pick_iterate_nodes props=C03
+//@begin fn src/action/lookup.rs - pick_iterate_nodes props=C03,C02
 #[verifier::exec_allows_no_decreases_clause]
 pub fn pick_iterate_nodes<I>(
     unsorted_nodes: I,
@@ -210,7 +210,7 @@ where
 }
 //@end
 
-//@begin fn src/action/lookup.rs - insert_closest_nodes props=C03
+//@begin fn src/action/lookup.rs - insert_closest_nodes props=C03,C02
 pub fn insert_closest_nodes(
     nodes: &mut [(NodeHandle, bool)],
     target_id: InfoHash,
@@ -237,7 +237,7 @@ pub fn insert_closest_nodes(
 }
 //@end
 
-//@begin fn src/action/lookup.rs - insert_sorted_node props=C03
+//@begin fn src/action/lookup.rs - insert_sorted_node props=C03,C02
 pub fn insert_sorted_node(
     nodes: &mut Vec<(Distance, NodeHandle, bool)>,
     target: InfoHash,
@@ -248,7 +248,7 @@ pub fn insert_sorted_node(
     let node_dist = target ^ node_id;
 
     // Perform a search by distance from the target id
-    let search_result = nodes.binary_search_by(|p: &(Distance, NodeHandle, bool)| -> (o: std::cmp::Ordering) { let (dist, _, _) = p; dist.cmp(&node_dist) });
+    let search_result = nodes.binary_search_by(|p: &(Distance, NodeHandle, bool)| -> (o: std::cmp::Ordering) { { let (dist, _, _) = p; dist.cmp(&node_dist) } });
     match search_result {
         Ok(dup_index) => {
             // TODO: Bug here, what happens when multiple nodes with the same distance are
@@ -325,7 +325,7 @@ pub open spec fn status_of(l: TableLookup) -> ActionStatus {
 pub open spec fn nothing_sent(o: Seq<Ev>, f: Seq<Ev>) -> bool { forall|i: int| o.len() <= i < f.len() ==> !(#[trigger] f[i] is Send) }
 
 impl TableLookup {
-//@begin fn src/action/lookup.rs impl:TableLookup new rules=R-deasync props=C03,C19,C17,C04
+//@begin fn src/action/lookup.rs impl:TableLookup new rules=R-deasync props=C03,C19,C17,C04,C02
     #[verifier::exec_allows_no_decreases_clause]
     pub fn new(
         target_id: InfoHash,
@@ -383,12 +383,12 @@ impl TableLookup {
         let initial_pick_nodes_filtered =
             initial_pick_nodes
                 .iter()
-                .filter(|p: &&(NodeHandle, bool)| -> (b: bool) { let (_, good) = p; *good })
-                .map(|p: &(NodeHandle, bool)| -> (q: (&NodeHandle, DistanceToBeat)) { let (node, _) = p; {
+                .filter(|p: &&(NodeHandle, bool)| -> (b: bool) { { let (_, good) = p; *good } })
+                .map(|p: &(NodeHandle, bool)| -> (q: (&NodeHandle, DistanceToBeat)) { { let (node, _) = p; {
                     let distance_to_beat = node.id ^ target_id;
 
                     (node, distance_to_beat)
-                } });
+                } } });
 
         let this_node_id = table.lock().unwrap().node_id();
 
@@ -424,7 +424,7 @@ impl TableLookup {
     }
 //@end
 
-//@begin fn src/action/lookup.rs impl:TableLookup start_request_round rules=R-deasync props=C03,C19,C17,C04
+//@begin fn src/action/lookup.rs impl:TableLookup start_request_round rules=R-deasync props=C03,C19,C17,C04,C02
     #[verifier::exec_allows_no_decreases_clause]
     pub fn start_request_round<'a, I>(
         &mut self,
@@ -552,7 +552,7 @@ impl TableLookup {
     }
 //@end
 
-//@begin fn src/action/lookup.rs impl:TableLookup start_endgame_round rules=R-deasync props=C03,C19,C17,C04
+//@begin fn src/action/lookup.rs impl:TableLookup start_endgame_round rules=R-deasync props=C03,C19,C17,C04,C02
     #[verifier::exec_allows_no_decreases_clause]
     pub fn start_endgame_round(
         &mut self,
@@ -590,7 +590,7 @@ impl TableLookup {
         assert(timer.pending@.contains_key(timeout) && entry_of(*self, timer.pending@[timeout]));
         // Request all unpinged nodes if we didnt receive any values
         if !self.recv_values {
-            let mut vx_it = self.all_sorted_nodes.iter_mut().filter(|p: &&mut (Distance, NodeHandle, bool)| -> (b: bool) { let (_, _, req) = p; !req });
+            let mut vx_it = self.all_sorted_nodes.iter_mut().filter(|p: &&mut (Distance, NodeHandle, bool)| -> (b: bool) { { let (_, _, req) = p; !req } });
             loop
                 invariant only_requests_and_yields(ev0, tr.ev), no_yield(ev0, tr.ev), // @C03.endgame_round_only_queries
                     outstanding_ids_ok(*old(self)) ==> outstanding_ids_ok(*self), // @C03.outstanding_ids_belong_to_this_search
@@ -649,7 +649,7 @@ impl TableLookup {
     }
 //@end
 
-//@begin fn src/action/lookup.rs impl:TableLookup recv_response rules=R-deasync props=C03,C05,C19,C04
+//@begin fn src/action/lookup.rs impl:TableLookup recv_response rules=R-deasync props=C03,C05,C19,C04,C01,C02
     pub fn recv_response(
         &mut self,
         node: Node,
@@ -665,9 +665,9 @@ impl TableLookup {
             !old(self).active_lookups@.contains_key(*trans_id) ==> final(tr).ev == old(tr).ev && final(self).announce_tokens@ == old(self).announce_tokens@
                 && final(self).active_lookups@ == old(self).active_lookups@ && *final(timer) == *old(timer), // @C03.unsolicited_response_changes_nothing
             // C03: otherwise the stream receives exactly the values of this response, in order, and nothing else
-            old(self).active_lookups@.contains_key(*trans_id) ==> yields(final(tr).ev) == yields(old(tr).ev) + msg.values@, // @C03.yields_exactly_the_values_of_an_outstanding_query
+            old(self).active_lookups@.contains_key(*trans_id) ==> yields(final(tr).ev) == yields(old(tr).ev) + msg.values@, // @C03.yields_exactly_the_values_of_an_outstanding_query @C01.yields_exactly_the_values_of_an_outstanding_query @C02.yields_exactly_the_values_of_an_outstanding_query
             // C03: the token is recorded under the responder's (id, address), replacing any older one
-            old(self).active_lookups@.contains_key(*trans_id) ==> final(self).announce_tokens@ == (if msg.token is Some { old(self).announce_tokens@.insert(node.handle, msg.token->0) } else { old(self).announce_tokens@ }), // @C03.latest_token_recorded_under_responder
+            old(self).active_lookups@.contains_key(*trans_id) ==> final(self).announce_tokens@ == (if msg.token is Some { old(self).announce_tokens@.insert(node.handle, msg.token->0) } else { old(self).announce_tokens@ }), // @C03.latest_token_recorded_under_responder @C01.latest_token_recorded_under_responder @C02.latest_token_recorded_under_responder
             no_replies(old(tr).ev, final(tr).ev), only_requests_and_yields(old(tr).ev, final(tr).ev), // @C05.responses_never_answered
             outstanding_ids_ok(*old(self)) ==> outstanding_ids_ok(*final(self)), // @C03.outstanding_ids_belong_to_this_search
             // C04: the search reports Completed only when no query is outstanding and no end-game is running; as long as it goes on it cannot get stuck
@@ -762,7 +762,7 @@ impl TableLookup {
                 {
                     let node = nodes[vx_i];
                     vx_i += 1;
-                    let will_ping = iterate_nodes.iter().any(|p: &(NodeHandle, bool)| -> (b: bool) { let (n, _) = p; n == &node });
+                    let will_ping = iterate_nodes.iter().any(|p: &(NodeHandle, bool)| -> (b: bool) { { let (n, _) = p; n == &node } });
 
                     insert_sorted_node(&mut self.all_sorted_nodes, self.target_id, node, will_ping);
                 }
@@ -795,8 +795,8 @@ impl TableLookup {
             if let Some(nodes) = iterate_nodes {
                 let filtered_nodes = nodes
                     .iter()
-                    .filter(|p: &&(NodeHandle, bool)| -> (b: bool) { let (_, good) = p; *good })
-                    .map(|p: &(NodeHandle, bool)| -> (q: (&NodeHandle, DistanceToBeat)) { let (n, _) = p; (n, next_dist_to_beat) });
+                    .filter(|p: &&(NodeHandle, bool)| -> (b: bool) { { let (_, good) = p; *good } })
+                    .map(|p: &(NodeHandle, bool)| -> (q: (&NodeHandle, DistanceToBeat)) { { let (n, _) = p; (n, next_dist_to_beat) } });
                 self.start_request_round(filtered_nodes, socket, timer, Tracked(tr))
                     ;
             }
@@ -817,13 +817,13 @@ impl TableLookup {
         let ghost ann1 = self.announce_tokens;
         let ghost tm1 = *timer;
         proof {
-            lemma_yields_quiet(ev0, ev1); // @C03.yields_exactly_the_values_of_an_outstanding_query
+            lemma_yields_quiet(ev0, ev1); // @C03.yields_exactly_the_values_of_an_outstanding_query @C01.yields_exactly_the_values_of_an_outstanding_query @C02.yields_exactly_the_values_of_an_outstanding_query
         }
         for value in it: values
             invariant it.snapshot@.remaining() == vals, 0 <= it.index@ <= vals.len(),
-                yields(tr.ev) == yields(ev0) + vals.take(it.index@ as int), // @C03.yields_exactly_the_values_of_an_outstanding_query
+                yields(tr.ev) == yields(ev0) + vals.take(it.index@ as int), // @C03.yields_exactly_the_values_of_an_outstanding_query @C01.yields_exactly_the_values_of_an_outstanding_query @C02.yields_exactly_the_values_of_an_outstanding_query
                 no_replies(ev0, tr.ev), only_requests_and_yields(ev0, tr.ev), // @C05.responses_never_answered
-                self.announce_tokens == ann1, // @C03.latest_token_recorded_under_responder
+                self.announce_tokens == ann1, // @C03.latest_token_recorded_under_responder @C01.latest_token_recorded_under_responder @C02.latest_token_recorded_under_responder
                  self.will_announce == old(self).will_announce, self.target_id == old(self).target_id, self.this_node_id == old(self).this_node_id,
                 *timer == tm1, self.id_generator.action_id == old(self).id_generator.action_id, extends(ev1, tr.ev),
                 forall|i: int| ev1.len() <= i < tr.ev.len() ==> !(#[trigger] tr.ev[i] is Send),
@@ -844,7 +844,7 @@ impl TableLookup {
     }
 //@end
 
-//@begin fn src/action/lookup.rs impl:TableLookup recv_timeout rules=R-deasync props=C03,C05,C19,C04
+//@begin fn src/action/lookup.rs impl:TableLookup recv_timeout rules=R-deasync props=C03,C05,C19,C04,C02
     pub fn recv_timeout(
         &mut self,
         trans_id: &TransactionID,
@@ -885,7 +885,7 @@ impl TableLookup {
     }
 //@end
 
-//@begin fn src/action/lookup.rs impl:TableLookup completed props=C03,C04
+//@begin fn src/action/lookup.rs impl:TableLookup completed props=C03,C04,C02
     pub fn completed(&self) -> (r: bool)
         ensures r == (self.active_lookups@.len() == 0),
     {
@@ -894,14 +894,14 @@ impl TableLookup {
     }
 //@end
 
-//@begin fn src/action/lookup.rs impl:TableLookup recv_finished rules=R-deasync props=C03,C19,C04
+//@begin fn src/action/lookup.rs impl:TableLookup recv_finished rules=R-deasync props=C03,C19,C04,C01,C02
     pub fn recv_finished(&mut self, port: Option<u16>, socket: &Socket, Tracked(tr): Tracked<&mut Trace>)
         ensures
-            !old(self).will_announce ==> final(tr).ev == old(tr).ev, // @C03.never_announces_when_not_requested
-            announces_le_8(old(tr).ev, final(tr).ev), // @C03.at_most_8_announces_per_search
+            !old(self).will_announce ==> final(tr).ev == old(tr).ev, // @C03.never_announces_when_not_requested @C02.never_announces_when_not_requested
+            announces_le_8(old(tr).ev, final(tr).ev), // @C03.at_most_8_announces_per_search @C02.at_most_8_announces_per_search
             // every datagram sent is an announce_peer to a node that answered this search with a token, carrying that node's
             // (latest recorded) token, the searched info-hash, our id, the configured port and an 8-byte transaction id of this search
-            forall|i: int| old(tr).ev.len() <= i < final(tr).ev.len() && #[trigger] final(tr).ev[i] is Send ==> announce_ok(*old(self), port, final(tr).ev[i]), // @C03.announce_only_to_token_holders_with_their_token
+            forall|i: int| old(tr).ev.len() <= i < final(tr).ev.len() && #[trigger] final(tr).ev[i] is Send ==> announce_ok(*old(self), port, final(tr).ev[i]), // @C03.announce_only_to_token_holders_with_their_token @C01.announce_only_to_token_holders_with_their_token @C02.announce_only_to_token_holders_with_their_token
             only_requests_and_yields(old(tr).ev, final(tr).ev), no_yield(old(tr).ev, final(tr).ev), // @C03.finishing_yields_nothing
             (forall|h: NodeHandle| #[trigger] old(self).announce_tokens@.contains_key(h) ==> old(self).announce_tokens@[h]@.len() <= 1300) ==> forall|i: int| old(tr).ev.len() <= i < final(tr).ev.len() && #[trigger] final(tr).ev[i] is Send ==> blen(final(tr).ev[i]->Send_0) <= 1500, // @C17.announce_queries_fit_1500_bytes_when_the_remote_token_is_at_most_1300_bytes
             // the unconditional statement (recorded known finding: a token of 1366..1435 bytes arrives in a response that fits 1500 bytes, the announce echoing it does not)
@@ -919,7 +919,7 @@ impl TableLookup {
             for (_, node, _) in it: self
                 .all_sorted_nodes
                 .iter()
-                .filter(|p: &&(Distance, NodeHandle, bool)| -> (b: bool) ensures b == announce_tokens@.contains_key(p.1) { let (_, node, _) = p; announce_tokens.contains_key(node) })
+                .filter(|p: &&(Distance, NodeHandle, bool)| -> (b: bool) ensures b == announce_tokens@.contains_key(p.1) { { let (_, node, _) = p; announce_tokens.contains_key(node) } })
                 .take(ANNOUNCE_PICK_NUM)
                 invariant it.index@ <= 8, tr.ev.len() == ev0.len() + 2 * it.index@ || tr.ev.len() < ev0.len() + 2 * it.index@, ev0.len() <= tr.ev.len(),
                     send_count(ev0, tr.ev) <= it.index@,
@@ -970,7 +970,7 @@ impl TableLookup {
     }
 //@end
 
-//@begin fn src/action/lookup.rs impl:TableLookup current_lookup_status nopub=1 props=C04,C03
+//@begin fn src/action/lookup.rs impl:TableLookup current_lookup_status nopub=1 props=C04,C03,C02
     fn current_lookup_status(&self) -> (r: ActionStatus)
         ensures r == (if self.in_endgame || self.active_lookups@.len() != 0 { ActionStatus::Ongoing } else { ActionStatus::Completed }),
     {
